@@ -78,6 +78,10 @@ let oracle_c14 (line : string) : string =
         if r.kind = "K" then begin
           let t = parse_tree (field r "T") in
           compare_logs k t (key_spec claims t) (parse_ievs (field r "L"))
+        end else if r.kind = "SH" then begin
+          (* the focus chain keys are routed along: show re-links only a parent without a focused child *)
+          if not (c15_show_checkb (zi (int_of_string (field r "W"))) (parse_tree (field r "U")) (parse_tree (field r "T"))) then
+            bad := Some (Printf.sprintf "record %d: show changed the focus chain: the shown window is offered keys before the window that took the focus meanwhile (or is left off the chain)" k)
         end else if r.kind = "MS" then begin
           let t = parse_tree (field r "T") in
           match !raws with
